@@ -144,7 +144,7 @@ def build(unit_name, outdir, global_rw=()):
     while i < len(lines):
         line = lines[i]
         i += 1
-        dm = re.match(r'\s*//@(\w+\??)\s*(.*)$', line)
+        dm = re.match(r'\s*//@(\w+[?!]?)\s*(.*)$', line)
         if not dm:
             if cur is not None and payload_key is not None:
                 if payload_key[0] == 'loop':
@@ -217,8 +217,8 @@ def build(unit_name, outdir, global_rw=()):
             cur.d['nocanary'] = True
         elif key == 'noisvariant':
             cur.d['noisvariant'] = True
-        elif key in ('rw', 'rw?'):
-            cur.d['rw'].append(parse_rw(arg) + (key == 'rw',))
+        elif key in ('rw', 'rw?', 'rw!'):
+            cur.d['rw'].append(parse_rw(arg) + ({'rw': True, 'rw?': False, 'rw!': 'critical'}[key],))
         elif key == 'builtin' and arg == 'map_or_else':
             cur.d['rw'].append(('@map_or_else', None, False))
         elif key == 'builtin' and arg in ('optmap', 'resmap'):
@@ -389,7 +389,11 @@ def desugar_option_map(text, mode='asref'):
         start = i + 1   # rescan inside the replacement: maps can nest
 
 
-def apply_rw(text, rws, where):
+def apply_rw(text, rws, where, lost=None):
+    """required: False = optional (`//@rw?`), True = expected (`//@rw`: if it no longer matches the function is still
+    extracted and verified — Verus then either rejects the unrewritten construct (undecided) or decides the new code —
+    and the lost rewrite is recorded), 'critical' = `//@rw!` (a proof hint / ghost argument: without it a failed
+    proof would say nothing about the code, so the anchor is lost)."""
     n_applied = 0
     for pat, repl, required in rws:
         if pat == '@map_or_else':
@@ -405,7 +409,9 @@ def apply_rw(text, rws, where):
             continue
         new, n = re.subn(pat, repl, text)
         if n == 0 and required:
-            raise LostAnchor('%s: rewrite /%s/ no longer matches (code outside the extractor\'s subset)' % (where, pat))
+            if required == 'critical' or lost is None:
+                raise LostAnchor('%s: rewrite /%s/ no longer matches (code outside the extractor\'s subset)' % (where, pat))
+            lost.append(pat)
         n_applied += n
         text = new
     return text, n_applied
@@ -439,7 +445,8 @@ def emit_fn(b, out, meta, unit_rw, unit_name):
             edits.append((be, be, ' }'))
     for st, en, new in sorted(edits, reverse=True):
         body = body[:st] + new + body[en:]
-    body, nrw = apply_rw(body, list(b.d['rw']) + [r for r in unit_rw], '%s::%s' % (rel, name))
+    lost_rw = []
+    body, nrw = apply_rw(body, list(b.d['rw']) + [r for r in unit_rw], '%s::%s' % (rel, name), lost_rw)
     meta['rewrites'] += nrw
     newname = b.d['as'] or name
     qm = re.findall(r'[A-Za-z_]\w*', ctx)
@@ -463,7 +470,7 @@ def emit_fn(b, out, meta, unit_rw, unit_name):
     end_line = len(out)
     rec = dict(name=newname, repo_file=rel, repo_line=f['line'], repo_end_line=f['line'] + f['body'].count('\n') + f['sig'].count('\n'), ctx=ctx, sha256=f['sha256'],
                gen_lines=[start_line, end_line], canary=None, desc=b.d['desc'] or norm_ws(spec)[:300],
-               props=b.d['props'], rewrites=nrw, key='%s::%s%s' % (unit_name, qual, newname), qual=qual)
+               props=b.d['props'], rewrites=nrw, lost_rewrites=lost_rw, key='%s::%s%s' % (unit_name, qual, newname), qual=qual)
     if not b.d['nocanary']:
         req, _ = split_spec(spec)
         cname = 'vacuity_' + newname
@@ -605,7 +612,8 @@ def analyse(meta, r):
         prim = next((s for s in d.get('spans', []) if s.get('is_primary')), None)
         line = prim['line_start'] if prim else 0
         f, in_canary = fn_at(meta, line)
-        is_viol = any(v in msg for v in VIOLATION_MSGS)
+        # a diagnostic with a rustc error code (E0277 …) is a compile error, whatever its wording
+        is_viol = any(v in msg for v in VIOLATION_MSGS) and not d.get('code')
         is_res = any(v in msg for v in RESOURCE_MSGS)
         label = (prim or {}).get('label') or ''
         text = ' | '.join(t['text'].strip() for t in (prim or {}).get('text', [])[:3])
